@@ -328,7 +328,7 @@ def run_coq_bools(pid: str, imports: list[str], exprs: list[str], prelude: str =
             fh.write("From SE Require Import Base.Num Base.Res.\n")
             for imp in imports:
                 fh.write(f"From SE Require Import {imp}.\n")
-            fh.write("From Coq Require Import String.\nOpen Scope Q_scope.\n")
+            fh.write("Open Scope Q_scope.\n")
             fh.write(prelude + "\n")
             fh.write("Definition cases : list bool := [\n")
             fh.write(";\n".join(chunk))
@@ -368,7 +368,7 @@ def coq_eval(pid: str, imports: list[str], exprs: list[str], prelude: str = "") 
         fh.write("From SE Require Import Base.Num Base.Res.\n")
         for imp in imports:
             fh.write(f"From SE Require Import {imp}.\n")
-        fh.write("From Coq Require Import String.\nOpen Scope Q_scope.\n" + prelude + "\n")
+        fh.write("Open Scope Q_scope.\n" + prelude + "\n")
         for e in exprs:
             fh.write(f"Eval vm_compute in ({e}).\n")
     _, rc, out = _coqc_file(p)
